@@ -455,6 +455,35 @@ func (fc *FC) val(v ssa.Value) *RF {
 		}
 		return s.MakeFn("slice", args...)
 	case *ssa.Alloc:
+		// a struct cell that only ever holds a spilled parameter: a reference to that value
+		if _, isStruct := v.Type().Underlying().(*types.Pointer).Elem().Underlying().(*types.Struct); isStruct {
+			var only *ssa.Store
+			simple := true
+			for _, ref := range *v.Referrers() {
+				switch r := ref.(type) {
+				case *ssa.Store:
+					if r.Addr != v {
+						continue // the address itself is stored somewhere: a use, not a definition
+					}
+					if only == nil {
+						only = r
+					} else {
+						simple = false
+					}
+				case *ssa.FieldAddr:
+					for _, r2 := range *r.Referrers() {
+						if st, ok := r2.(*ssa.Store); ok && st.Addr == r {
+							simple = false
+						}
+					}
+				}
+			}
+			if simple && only != nil {
+				if _, isParam := only.Val.(*ssa.Parameter); isParam {
+					return s.MakeFn("ref", fc.Val(only.Val))
+				}
+			}
+		}
 		return s.Var(fmt.Sprintf("alloc:%s:%s", x.W.FuncName(fc.Fn), v.Name()), false)
 	case *ssa.MakeSlice:
 		return s.MakeFn("makeslice:"+x.W.FuncName(fc.Fn)+":"+v.Name(), fc.Val(v.Len))
